@@ -5,7 +5,8 @@
    multiplicity expressions, |k|^2 and mu^2, the three comparison directions with the edge index each one reads,
    the kind of loop exit (continue / break) taken by each range test, and — for bin_kppi — the loop that carries
    the k-range test and the order of the pi search and the pi range test.  No proofs here. *)
-From Coq Require Import ZArith QArith.
+From Coq Require Import ZArith QArith List String.
+Import ListNotations.
 Local Open Scope Z_scope.
 
 Inductive exit_kind := EContinue | EBreak.
@@ -62,3 +63,38 @@ Record kppi_parts := {
   kp_mult : Z -> Z -> Z;
   kp_wmult : Z -> Z -> Z -> Z;
 }.
+
+(* ---- the thread-count bookkeeping of a kernel whose per-thread accumulators are indexed by numba.get_thread_id() ----
+
+   numba keeps ONE process-wide current thread count: numba.set_num_threads(v) assigns it, numba.get_num_threads()
+   reads it, a prange loop runs with thread ids 0 .. current-1.  What matters for `acc[tid, ...] += ...` is the ORDER of
+   these events relative to the allocation of the accumulators, so that order is regenerated from the source:
+   the top-level statements of the kernel up to its prange loop, reduced to the four kinds of event below. *)
+Inductive tev :=
+| TSet (v : string)      (* numba.set_num_threads(v) *)
+| TGet (v : string)      (* v = numba.get_num_threads() *)
+| TAlloc (v : string)    (* <accumulator indexed by tid> = np.zeros((v, ...)) *)
+| TLoop.                 (* the prange loop *)
+
+Definition tenv := list (string * Z).
+Fixpoint tlookup (env : tenv) (v : string) : Z :=
+  match env with
+  | [] => 0
+  | (k, x) :: r => if String.eqb k v then x else tlookup r v
+  end.
+
+(* returns the thread count the loop runs with and the first dimensions of the accumulators allocated before it *)
+Fixpoint run_tev (evs : list tev) (cur : Z) (env : tenv) (allocs : list Z) : option (Z * list Z) :=
+  match evs with
+  | [] => None
+  | TSet v :: r => run_tev r (tlookup env v) env allocs
+  | TGet v :: r => run_tev r cur ((v, cur) :: env) allocs
+  | TAlloc v :: r => run_tev r cur env (tlookup env v :: allocs)
+  | TLoop :: _ => Some (cur, allocs)
+  end.
+
+(* for every thread count in force when the kernel is entered (left behind by whatever numba code ran before) and every
+   requested nthread, each accumulator has at least as many slabs as the loop has threads: tid < first dimension *)
+Definition threads_covered (evs : list tev) : Prop :=
+  forall entry req, 1 <= entry -> 1 <= req ->
+  exists c al, run_tev evs entry [("nthread"%string, req)] [] = Some (c, al) /\ al <> [] /\ Forall (fun a => c <= a) al.
